@@ -111,3 +111,59 @@ Lemma PathOf_beyond_empty s from h :
 Proof.
   intros Hf Hh Hlen Hb. exists 0. split; [now apply PathOf_beyond|]. repeat split.
 Qed.
+
+(** * locality: FromStr32 depends only on the bytes under the window and on where the string ends
+
+    Whole leading bytes can be dropped (shifting the window), and trailing bytes behind a
+    window that lies inside the string can be dropped.  This is what lets the correspondence
+    run judge a call on a 40 MB string by running the model on the few bytes that matter
+    (op bitmap.FromStr32/big). *)
+
+Lemma zlen_app {A} (a b : list A) : zlen (a ++ b) = zlen a + zlen b.
+Proof. unfold zlen. rewrite app_length. lia. Qed.
+
+Lemma spec_FromStr32_drop_prefix pre t f w : 0 <= f -> 0 <= w ->
+  spec_FromStr32 (pre ++ t) (8 * zlen pre + f) w = spec_FromStr32 t f w.
+Proof.
+  intros Hf Hw. unfold spec_FromStr32. cbv zeta.
+  assert (Ek : spec_k (pre ++ t) (8 * zlen pre + f) w = spec_k t f w)
+    by (unfold spec_k, clamp; rewrite zlen_app; lia).
+  rewrite Ek. f_equal. f_equal. f_equal.
+  rewrite !sel_bits_naive. f_equal.
+  rewrite msb_bits_app, skipn_app.
+  rewrite skipn_all2 by (rewrite msb_bits_length; unfold zlen; lia).
+  rewrite msb_bits_length. cbn [app]. f_equal. unfold zlen. lia.
+Qed.
+
+Lemma spec_FromStr32_drop_suffix t post f w : 0 <= f -> 0 <= w -> f + w <= 8 * zlen t ->
+  spec_FromStr32 (t ++ post) f w = spec_FromStr32 t f w.
+Proof.
+  intros Hf Hw Hin. unfold spec_FromStr32. cbv zeta.
+  assert (Ek : spec_k (t ++ post) f w = w) by (unfold spec_k, clamp; rewrite zlen_app; unfold zlen in *; lia).
+  assert (Ek' : spec_k t f w = w) by (unfold spec_k, clamp; lia).
+  rewrite Ek, Ek'. f_equal. f_equal. f_equal.
+  rewrite !sel_bits_naive. rewrite msb_bits_app, skipn_app, msb_bits_length.
+  replace (Z.to_nat f - 8 * length t)%nat with 0%nat by (unfold zlen in Hin; lia). cbn [skipn].
+  rewrite firstn_app, skipn_length, msb_bits_length.
+  replace (Z.to_nat w - (8 * length t - Z.to_nat f))%nat with 0%nat by (unfold zlen in Hin; lia).
+  cbn [firstn]. apply app_nil_r.
+Qed.
+
+Lemma bytes_ok_app a b : bytes_ok (a ++ b) <-> bytes_ok a /\ bytes_ok b.
+Proof. unfold bytes_ok. apply Forall_app. Qed.
+
+Lemma FromStr32_local pre t post f w :
+  bytes_ok (pre ++ t ++ post) -> 0 <= f -> 0 <= w <= 32 ->
+  8 * zlen pre + f + w + 7 < 2 ^ 31 -> 8 * zlen (pre ++ t ++ post) < 2 ^ 31 ->
+  (post = [] \/ f + w <= 8 * zlen t) ->
+  FromStr32 (pre ++ t ++ post) (8 * zlen pre + f) (8 * zlen pre + f + w) = FromStr32 t f (f + w).
+Proof.
+  intros Hs Hf Hw Hov Hlen Hpost.
+  assert (Hz : 0 <= zlen pre) by (unfold zlen; lia).
+  apply bytes_ok_app in Hs as Hs'. destruct Hs' as [_ Hs']. apply bytes_ok_app in Hs'. destruct Hs' as [Ht _].
+  rewrite !zlen_app in Hlen. assert (0 <= zlen post) by (unfold zlen; lia).
+  rewrite FromStr32_spec by (rewrite ?zlen_app; assumption || lia).
+  rewrite (FromStr32_spec t) by (assumption || lia). f_equal.
+  rewrite spec_FromStr32_drop_prefix by lia.
+  destruct Hpost as [->|Hin]; [now rewrite app_nil_r|]. apply spec_FromStr32_drop_suffix; lia.
+Qed.
